@@ -338,6 +338,67 @@ class SpecRun:
             return self.preempt_block(b)
         raise NotImplementedError(f'spec: block {type(b).__name__}')
 
+    # ---- calls (README "Standard library"; call protocol) -----------------------------------------------------------------------
+    def call(self, e):
+        from hidc.lexer.tokens import Ident
+        name = e.func
+        types = tuple(a.type for a in e.args)
+        # inlined built-ins
+        if name == Ident('write') and types == (DataType.BYTE,):
+            v = self.eval(e.args[0]); self.event('out', v % 256); return None
+        if name == Ident('writeln'):
+            if e.args:
+                self.call(ast.FuncCall(Ident('write'), e.args, e.span, DataType.EMPTY))
+            self.event('out', z3.IntVal(10)); return None
+        if name == Ident.defeat('is_defeat'):
+            raise Abrupt(Out('defeat'))
+        if name == Ident.defeat('truth_is_defeat'):
+            v = self.eval(e.args[0])
+            if self.decide(v != 0):
+                raise Abrupt(Out('defeat'))
+            return None
+        if name == Ident('sleep'):
+            v = self.eval(e.args[0]); self.event('sleep', v); return None
+        if name == Ident('debug'):
+            self.event('flag', 'debug'); return None
+        if name == Ident('progress'):
+            self.event('flag', 'progress'); return None
+        if name in (Ident('all_is_win'), Ident('all_is_broken')):
+            for f in isa.TERMINAL[name.base_name]:
+                self.event('flag', f)
+            raise Abrupt(Out('terminal', what=name.base_name))
+        # call protocol: arguments left to right, then the callee
+        vals = []
+        for a in e.args:
+            if isinstance(a.type, ArrayType):
+                arr = self.array_of(a)
+                vals.append(('array', arr))
+            else:
+                vals.append(('scalar', self.eval(a), a.type))
+        en = self.next(f'call of {name}')
+        if en[0] != 'call':
+            raise Mismatch(f'source semantics calls {name} here, emitted code did {en[0]}')
+        ev = en[2]
+        want = self.L.expected_label(e, vals)
+        if en[1] != want:
+            raise Mismatch(f'call goes to {en[1]}, the overload the typechecker bound is {want}')
+        flat = []
+        for v in vals:
+            if v[0] == 'array':
+                flat += [(v[1].length, self.W), (v[1].origin, self.W)]       # reference: (length, origin)
+            else:
+                flat.append((v[1], 1 if v[2].byte_sized else self.W))
+        if len(flat) != len(ev.args):
+            raise Mismatch(f'callee expects {len(ev.args)} argument slots, source passes {len(flat)}')
+        for (sv, size), cv in zip(flat, ev.args):
+            self.require_eq(cv, sv % (1 << (8 * size)), f'argument slot of {name}')
+        self.sync(ev.pre, f'at the call of {name}')
+        self.mem = ev.havoc(self.mem)
+        if ev.abnormal is not None:
+            kind = {'term': 'child-term', 'defeat': 'defeat'}[ev.abnormal]
+            raise Abrupt(Out(kind, what=ev.abnormal))
+        return ev.ret
+
     # ---- arrays and strings (README "Types") ---------------------------------------------------------------------------------
     def cload(self, addr, n):
         return self.load(self.ctx.cmem, addr, n)
@@ -345,7 +406,8 @@ class SpecRun:
     def array_of(self, e):
         """value of an array-typed expression: where it lives and how long it is"""
         if isinstance(e, ast.Volatile):
-            return self.array_of(e.expr)
+            # a mutable array viewed as const: same storage, read-only view
+            return dc.replace(self.array_of(e.expr), writable=False)
         if isinstance(e, ast.VariableLookup):
             if e.var.name in self.newvars:
                 return self.newvars[e.var.name]
